@@ -216,6 +216,36 @@ impl Snapshot {
         edge_property_from_runs(&self.runs, edge, key)
     }
 
+    pub(crate) fn lookup_node_property(
+        &self,
+        node: InternalNodeId,
+        key: &str,
+    ) -> crate::read_path_overlay::RunLookup {
+        crate::read_path_overlay::lookup_node_property_in_runs(&self.runs, node, key)
+    }
+
+    pub(crate) fn lookup_edge_property(
+        &self,
+        edge: EdgeKey,
+        key: &str,
+    ) -> crate::read_path_overlay::RunLookup {
+        crate::read_path_overlay::lookup_edge_property_in_runs(&self.runs, edge, key)
+    }
+
+    pub(crate) fn removed_node_property_keys(
+        &self,
+        node: InternalNodeId,
+    ) -> std::collections::BTreeSet<String> {
+        crate::read_path_overlay::removed_node_property_keys(&self.runs, node)
+    }
+
+    pub(crate) fn removed_edge_property_keys(
+        &self,
+        edge: EdgeKey,
+    ) -> (std::collections::BTreeSet<String>, bool) {
+        crate::read_path_overlay::removed_edge_property_keys(&self.runs, edge)
+    }
+
     /// Get all node properties merged from all runs (newest takes precedence).
     pub(crate) fn node_properties(
         &self,
